@@ -16,7 +16,7 @@ use std::sync::Mutex;
 use std::time::Instant;
 
 pub const POOL_LIMIT: usize = 65535;
-pub const NKINDS: u64 = 26;
+pub const NKINDS: u64 = 27;
 
 struct B {
     ops: Vec<OpRec>,
@@ -347,6 +347,32 @@ pub fn scenario(seed: u64, idx: u64) -> Trace {
             b.restart(&mut rng);
             trace(seed, idx, Init::Foreign(Box::new(spec)), b.ops, &mut rng)
         }
+        // ---- the catalog's own row limit: _Validation nearly full (rows for tables the file lacks)
+        26 => {
+            let mut spec = pool_image(2000, false, &mut rng);
+            // 256 x 256 (table, column) pairs from 512 distinct strings, minus a few
+            let room = [3usize, 10, 0][(idx / NKINDS % 3) as usize];
+            let base = spec.model().tables["_Validation"].rows.len();
+            let want = 65536 - room - base;
+            let mut stale = Vec::with_capacity(want);
+            'outer: for a in 0..256 {
+                for c in 0..256 {
+                    if stale.len() >= want {
+                        break 'outer;
+                    }
+                    stale.push((format!("Zt{}", a), format!("Zc{}", c)));
+                }
+            }
+            spec.stale_validation = stale;
+            // needs 4 rows in _Validation: refused when fewer are free, and then nothing may be left behind
+            let cols: Vec<ColSpec> = (0..4).map(|i| { let mut c = ColSpec::new(&format!("N{}", i), CType::I16); c.key = i == 0; c.nullable = i != 0; c }).collect();
+            b.push(Op::CreateTable { name: "Fresh".into(), cols: cols.clone() });
+            b.push(Op::Observe);
+            b.push(Op::CreateTable { name: "Fresh2".into(), cols: cols[..2].to_vec() });
+            b.push(Op::CreateTable { name: "Fresh3".into(), cols: cols[..1].to_vec() });
+            b.restart(&mut rng);
+            trace(seed, idx, Init::Foreign(Box::new(spec)), b.ops, &mut rng)
+        }
         // ---- a seeded ordinary history on top of a near-full pool
         _ => {
             let spec = pool_image(POOL_LIMIT - 1 - rng.usize_below(3), false, &mut rng);
@@ -432,7 +458,7 @@ pub fn check(tier: &str, seed: u64) -> i32 {
     let mut extra = BTreeMap::new();
     extra.insert(
         "scenario_kinds".to_string(),
-        serde_json::json!("0-2 columns 31/32/33; 3-5 rows 65535/65536/65537 in one batch; 6-7 rows incrementally (with restarts); 8 rows after deletions; 9-16 string pool at L-1/L with two-byte references (insert, batch, delete-then-insert, update, create_table, restart in between); 17 three-byte references; 18-19 table/column name lengths; 20 stream name lengths; 21 string widths 254/255/256; 22 16-bit refcount saturation; 23 seeded history on a near-full pool; 24 full pool plus a string with a saturated refcount; 25 one row needing two entries when one is free"),
+        serde_json::json!("0-2 columns 31/32/33; 3-5 rows 65535/65536/65537 in one batch; 6-7 rows incrementally (with restarts); 8 rows after deletions; 9-16 string pool at L-1/L with two-byte references (insert, batch, delete-then-insert, update, create_table, restart in between); 17 three-byte references; 18-19 table/column name lengths; 20 stream name lengths; 21 string widths 254/255/256; 22 16-bit refcount saturation; 23 seeded history on a near-full pool; 24 full pool plus a string with a saturated refcount; 25 one row needing two entries when one is free; 26 _Validation at its own 65,536-row limit"),
     );
     extra.insert("scenarios_per_kind".to_string(), serde_json::json!(kinds.into_inner().unwrap().into_iter().map(|(k, v)| (k.to_string(), v)).collect::<BTreeMap<_, _>>()));
     let rep = CheckReport {
